@@ -9,7 +9,6 @@ package quorum
 import (
 	"github.com/orbs-network/lean-helix-go/services/interfaces"
 	"github.com/orbs-network/lean-helix-go/spec/types/go/primitives"
-	"math"
 )
 
 func GetWeights(members []interfaces.CommitteeMember) []primitives.MemberWeight {
@@ -47,7 +46,7 @@ func CalcByzMaxWeight(committeeWeights []primitives.MemberWeight) uint {
 }
 
 func calcF(totalWeight uint) uint {
-	return uint(math.Floor(float64(totalWeight-1) / 3))
+	return (totalWeight - 1) / 3 // integer division: float64 cannot represent totals above 2^53 exactly
 }
 
 func IsQuorum(committeeSubset []primitives.MemberId, allCommitteeMembers []interfaces.CommitteeMember) (bool, uint, uint) {
